@@ -167,6 +167,12 @@ def solve_root_paths(prog: Program, values=()):
             if fname == "brentq":
                 st.emit("BRENT", (args, kwargs), node)
                 return Rat.atom("BRENTQ_ROOT")
+            callee = eng._resolve_callee(fname) if fname else None
+            if callee is not None and args and not kwargs and all(isinstance(a, Rat) and a.is_const() for a in args):
+                # a predicate of the package applied to the signs given as constants (check_bracket(-1, 1)): its value
+                got = sc.concrete_predicate(callee.node, [a.const_value() for a in args])
+                if got is not None:
+                    return Const(got)
             return None
 
         def on_assign(self, key, val, stmt, st, eng):
